@@ -24,6 +24,7 @@ use std::io::BufRead;
 use std::path::{Path, PathBuf};
 use std::time::Duration;
 
+mod keepalive;
 mod reqrep;
 mod server;
 
@@ -337,7 +338,7 @@ fn main() {
             Some("server") => server::cmd_server(args.clone()).await,
             Some("stall") => server::cmd_stall(args.clone()).await,
             Some("tls") => server::cmd_tls(args.clone()).await,
-            Some("keepalive") => server::cmd_keepalive(args.clone()).await,
+            Some("keepalive") => keepalive::cmd_keepalive(args.clone()).await,
             _ => Err(anyhow!("usage: e2e pubsub|reqrep|server|stall|tls|keepalive --out T ...")),
         }
     });
